@@ -170,6 +170,14 @@ impl<T> parity_scale_codec::DecodeWithMemTracking for CompactOf<T> where
 	parity_scale_codec::Compact<T>: parity_scale_codec::DecodeWithMemTracking
 {
 }
+impl<T> parity_scale_codec::MaxEncodedLen for CompactOf<T>
+where
+	parity_scale_codec::Compact<T>: parity_scale_codec::MaxEncodedLen + Encode,
+{
+	fn max_encoded_len() -> usize {
+		parity_scale_codec::Compact::<T>::max_encoded_len()
+	}
+}
 impl<T: CompactAsSubject> Subject for CompactOf<T> {
 	fn shape() -> Shape {
 		T::compact_shape()
@@ -205,6 +213,56 @@ impl CompactAsSubject for CA {
 		Shape::Struct(vec![refmodel::Field { shape: Shape::Compact(32), skip: false }])
 	}
 }
+
+/// `CompactAs` newtypes over every width (the compact form of a 16-bit number can be longer than the number
+/// plus one byte), as `Compact<_>` and as `#[codec(compact)]` fields of a struct deriving `MaxEncodedLen`.
+macro_rules! ca_width {
+	($name:ident, $holder:ident, $t:ty, $bits:expr) => {
+		#[derive(Clone, Debug, Default, PartialEq, Eq, PartialOrd, Ord, Encode, Decode, parity_scale_codec::CompactAs, parity_scale_codec::DecodeWithMemTracking, parity_scale_codec::MaxEncodedLen)]
+		pub struct $name(pub $t);
+		impl Subject for $name {
+			fn shape() -> Shape {
+				Shape::Struct(vec![refmodel::Field { shape: Shape::UInt($bits), skip: false }])
+			}
+			fn from_value(v: &Value) -> Self {
+				$name(<$t>::from_value(&list(v)[0]))
+			}
+			fn to_value(&self) -> Value {
+				Value::List(vec![self.0.to_value()])
+			}
+		}
+		impl CompactAsSubject for $name {
+			fn compact_shape() -> Shape {
+				Shape::Struct(vec![refmodel::Field { shape: Shape::Compact($bits), skip: false }])
+			}
+		}
+		#[derive(Clone, Debug, PartialEq, Eq, Encode, Decode, parity_scale_codec::DecodeWithMemTracking, parity_scale_codec::MaxEncodedLen)]
+		pub struct $holder {
+			#[codec(compact)]
+			pub c: $name,
+			pub x: u8,
+		}
+		impl Subject for $holder {
+			fn shape() -> Shape {
+				Shape::Struct(vec![
+					refmodel::Field { shape: <$name as CompactAsSubject>::compact_shape(), skip: false },
+					refmodel::Field { shape: Shape::UInt(8), skip: false },
+				])
+			}
+			fn from_value(v: &Value) -> Self {
+				let f = list(v);
+				$holder { c: <$name>::from_value(&f[0]), x: u8::from_value(&f[1]) }
+			}
+			fn to_value(&self) -> Value {
+				Value::List(vec![self.c.to_value(), self.x.to_value()])
+			}
+		}
+	};
+}
+ca_width!(Ca8, HasCa8, u8, 8);
+ca_width!(Ca16, HasCa16, u16, 16);
+ca_width!(Ca64, HasCa64, u64, 64);
+ca_width!(Ca128, HasCa128, u128, 128);
 
 /// A hand-written `CompactAs` type whose `decode_from` is fallible (a percentage): `Compact<Pct>` and
 /// `#[codec(compact)]` fields of it must reject canonical numbers above 100 on every path
@@ -293,6 +351,14 @@ impl Subject for WithPct {
 pub fn registry() -> Vec<VT> {
 	vec![
 		crate::vt!(Pt, "Pt", "derived", true),
+		crate::vt!(CompactOf<Ca8>, "Compact<Ca8>", "derived", true),
+		crate::vt!(HasCa8, "HasCa8", "derived", true),
+		crate::vt!(CompactOf<Ca16>, "Compact<Ca16>", "derived", true),
+		crate::vt!(HasCa16, "HasCa16", "derived", true),
+		crate::vt!(CompactOf<Ca64>, "Compact<Ca64>", "derived", true),
+		crate::vt!(HasCa64, "HasCa64", "derived", true),
+		crate::vt!(CompactOf<Ca128>, "Compact<Ca128>", "derived", true),
+		crate::vt!(HasCa128, "HasCa128", "derived", true),
 		crate::vt!(CompactOf<Pct>, "Compact<Pct>", "derived", true),
 		crate::vt!(Vec<CompactOf<Pct>>, "Vec<Compact<Pct>>", "derived", true),
 		crate::vt!([CompactOf<Pct>; 2], "[Compact<Pct>; 2]", "derived", false),
